@@ -71,15 +71,25 @@ type stat struct {
 }
 
 // totalLines counts lines the way YAML (and therefore every position pint
-// derives from YAML nodes) does: a line ends with \n, \r\n or a bare \r.
+// derives from YAML nodes) does: a line ends with \n, \r\n, a bare \r, or one
+// of NEL (U+0085), LS (U+2028), PS (U+2029).
 func totalLines(b []byte) int {
 	n := 0
+	last := 0 // index after the last line break
 	for i := 0; i < len(b); i++ {
-		if b[i] == '\n' || (b[i] == '\r' && (i+1 >= len(b) || b[i+1] != '\n')) {
+		switch {
+		case b[i] == '\n', b[i] == '\r' && (i+1 >= len(b) || b[i+1] != '\n'):
 			n++
+			last = i + 1
+		case b[i] == 0x85 && i > 0 && b[i-1] == 0xC2:
+			n++
+			last = i + 1
+		case (b[i] == 0xA8 || b[i] == 0xA9) && i > 1 && b[i-2] == 0xE2 && b[i-1] == 0x80:
+			n++
+			last = i + 1
 		}
 	}
-	if len(b) > 0 && b[len(b)-1] != '\n' && b[len(b)-1] != '\r' {
+	if last < len(b) {
 		n++
 	}
 	return n
